@@ -124,6 +124,14 @@ Record state := mkSt {
 Definition init (own : N) : state :=
   mkSt [] [(own, shell)] [] [] [] [] [] [].
 
+(* lnd restarts: everything the gossiper keeps in memory (reject cache,
+   premature updates, rate limiters, ban scores) is gone; the graph, the zombie
+   index and the closed-scid index are persisted.  The graph store's lookup
+   caches are an implementation detail with no counterpart here: a restart is
+   the identity on the graph. *)
+Definition restart (st : state) : state :=
+  mkSt (s_edges st) (s_nodes st) (s_zombies st) (s_closed st) [] [] [] [].
+
 Definition height_of (scid : N) : N := N.shiftr scid 40.
 Definition dir_of (cf : N) : N := N.land cf 1.
 Definition disabled (cf : N) : bool := negb (N.eqb (N.land cf 2) 0).
